@@ -365,7 +365,7 @@ Plan gen_w1(uint64_t seed, const std::string& tier, const std::string& focus) {
     if (focus == "C03") { layout = r.coin(0.7) ? 1 : 2; n = r.range(2, 4); }
     if (focus == "C03" ? r.coin(0.5) : r.coin(0.1)) {   // every positive time step / damping / density
         static const double dts[] = {5e-8, 1e-7, 2e-7}; pl.p["dt"] = dts[r.below(3)];
-        pl.p["damp_x"] = std::pow(10.0, r.uni(-2.5, 0.0)) * 1.5; if (r.coin(0.5)) pl.p["density"] = std::pow(10.0, r.uni(2.3, 3.7));
+        pl.p["damp_x"] = std::pow(10.0, r.uni(-2.5, 0.0)) * 1.5; if (r.coin(0.5)) { double rho = std::pow(10.0, r.uni(0.0, 3.7)); pl.p["density"] = rho; if (rho < 1000) pl.p["dt"] = pl.p["dt"] * std::sqrt(rho / 1000); }    // (the shipped parameter files use densities from 1.04 to 1000; a lighter cell needs a proportionally smaller step: stiffness*dt^2/mass is what the explicit scheme tolerates)
     }
     pl.p["ncells"] = n; pl.p["layout"] = layout;
     place_cells(pl, r, n, layout, R, cutoff);
